@@ -486,6 +486,11 @@ def run_c10(rep, tier):
             for kind in ('svg', 'eps', 'pdf', 'tex'):
                 sess.append({'version': ['crafted', v, pattern, 1], 'kind': kind, 'kw': {'scale': (1, 2.5)[len(sess) % 2], 'border': (0, 1, 4)[len(sess) % 3]},
                              'seed': common.seed(), 'family': 'vector'})
+    # colour components 0, 1, 2, 254, 255 (1 is an intensity of 1/255, not of 1.0) as tuple and as hexadecimal value
+    for clr in ((1, 1, 1), '#010101', (255, 1, 1), '#ff0101', (0, 1, 0), (1, 0, 0), (2, 2, 2), (254, 255, 0), '#fffe01', (0, 0, 1), (1, 1, 1, 255), (1, 1, 1, 1.0)):
+        for kind in ('svg', 'eps', 'pdf'):
+            sess.append({'version': 'M2', 'kind': kind, 'kw': {'dark': clr}, 'seed': common.seed(), 'family': 'vector'})
+            sess.append({'version': 'M2', 'kind': kind, 'kw': {'dark': 'navy', 'light': clr}, 'seed': common.seed(), 'family': 'vector'})
     # every integer alpha value (0..255) as stroke opacity, and the special colours black / white with the alpha values around the ends
     for a in range(256):
         sess.append({'version': 'M1', 'kind': 'svg', 'kw': {'dark': (0, 0, 139, a), 'scale': 1}, 'seed': common.seed(), 'family': 'vector'})
